@@ -116,11 +116,20 @@ void h_parse_rr(void)
 #else
 /* ---- (b) one fixed-layout RDATA decoder per obligation, called directly ---- */
 #ifdef RDATA_CALL
+#ifdef STR_BOUNDS
+size_t sb_len0, sb_rdlen; int sb_calls;
+#endif
 void h_parse_rdata(void)
 {
   mk(); size_t r0 = g_buf.offset; size_t rdlen = nondet_size(); __CPROVER_assume(rdlen <= g_buf.data_len - r0);
   unsigned short raw_type = nondet_u16(), cls = nondet_u16(); unsigned int ttl = nondet_uint(); g_rr.parent = &g_rec; g_nlen[1] = g_nlen[0]; g_nlen[2] = g_nlen[0];
+#ifdef STR_BOUNDS
+  sb_len0 = ares_buf_len(&g_buf); sb_rdlen = rdlen; sb_calls = 0;
+#endif
   ares_status_t rv = RDATA_CALL;
+#ifdef STR_BOUNDS
+  __CPROVER_assert(rv != ARES_SUCCESS || sb_calls >= 1, "the decoder parses its character-strings through the checked helper"); return;
+#endif
   __CPROVER_assert(g_buf.offset <= g_buf.data_len, "C02: the read position never leaves the message");
   if (rv != ARES_SUCCESS) { return; }
   if (g_buf.offset - r0 > rdlen) { return; }   /* decoder ran past RDLENGTH (still inside the message): ares_dns_parse_rr rejects the record (parse.rr_header) */
